@@ -7,7 +7,7 @@ import json
 import core
 import engine_trace as ET
 import par
-from props.totals_common import run_trace_spec
+from props.totals_common import run_trace_spec, run_trace_sharded
 
 
 def _worker(seed, nfiles, focus):
@@ -53,7 +53,7 @@ def run(ck, focus, nfiles, label=None):
     if not recs:
         raise core.Machinery('engine trace recorder produced nothing')
     first = next(r for r in recs if r['kind'] == 'match')
-    rej = run_trace_spec(ck, label, recs + [_tamper(first)], module='Trace_Engine', cfg='Trace_Engine.cfg')
+    rej = run_trace_sharded(ck, label, recs + [_tamper(first)], 'Trace_Engine', 'Trace_Engine.cfg', shards=4 if len(recs) < 100000 else 12)
     if 'TAMPER' not in rej and first['id'] not in rej:
         raise core.Machinery('Trace_Engine accepted a tampered record: the binding is vacuous')
     rej.pop('TAMPER', None)
